@@ -11,54 +11,32 @@ Definition zwf := wf_tree Z nn_zcmp.
 Definition zfinal (t : Z) (root : ZT) (ops : list (nnop Z)) : nnst Z :=
   nn_final Z nn_zcmp t ops (nn_init Z root).
 
-(* ------------------------------------------------------------------ F1: stale /Limits
-   Full statement (DESIGN nn_wf_preserved):
-     forall t ops s0, 3 <= t -> wf_tree s0 = true -> wf_tree (root (final t ops s0)) = true.
-   It is FALSE on the faithful model (and on the library: ./check C18 observes the same trees):
-   inserting 1..18 in ascending order into an empty tree with split threshold 3 leaves
-   /Limits [9 16] on a node that contains 17 and 18. *)
+(* ------------------------------------------------------------------ the two repaired defects
+   F1 (fixed in /repo by 091ae163): split() used to reset the limits of both halves before the second
+   half was attached; ascending inserts 1..18 with threshold 3 left /Limits [9 16] on a node holding 17
+   and 18.  On the repaired code every tree met while loading 1..80 in ascending order is valid, for
+   thresholds 3, 4, 5 (this is the former refutation witness of nn_wf_preserved, and far beyond). *)
 Definition ins_asc (n : nat) : list (nnop Z) :=
   map (fun k => OpInsert (Z.of_nat k) (Z.of_nat k)) (seq 1 n).
+Definition all_valid (t : Z) (ops : list (nnop Z)) : bool :=
+  forallb (fun x => wf_code Z nn_zcmp t (snd x) =? 0) (nn_run Z nn_zcmp t (zleaf []) ops).
 
-Lemma nn_wf_preserved_refuted_lemma :
-  exists (t : Z) (s0 : ZT) (ops : list (nnop Z)),
-    3 <= t /\ zwf s0 = true /\ zwf (st_root Z (zfinal t s0 ops)) = false
-    /\ (* every lookup still answers like the sorted map: only the stored /Limits are wrong *)
-       nn_abs Z (st_root Z (zfinal t s0 ops)) = map (fun k => (Z.of_nat k, Z.of_nat k)) (seq 1 18).
-Proof.
-  exists 3, (zleaf []), (ins_asc 18). split; [lia|]. vm_compute. auto.
-Qed.
+Lemma nn_ascending_load_valid_lemma :
+  forallb (fun t => all_valid t (ins_asc 80)) [3; 4; 5] = true /\
+  nn_abs Z (st_root Z (zfinal 3 (zleaf []) (ins_asc 18))) = map (fun k => (Z.of_nat k, Z.of_nat k)) (seq 1 18).
+Proof. vm_compute. auto. Qed.
 
-(* the invalid node, explicitly *)
-Lemma nn_stale_limits_witness_lemma :
-  st_root Z (zfinal 3 (zleaf []) (ins_asc 18)) =
-  NInner None
-    [NInner (Some (1, 8))
-       [NInner (Some (1, 4)) [NLeaf (Some (1, 2)) [(1, 1); (2, 2)]; NLeaf (Some (3, 4)) [(3, 3); (4, 4)]];
-        NInner (Some (5, 8)) [NLeaf (Some (5, 6)) [(5, 5); (6, 6)]; NLeaf (Some (7, 8)) [(7, 7); (8, 8)]]];
-     NInner (Some (9, 16))      (* <- contains 17 and 18 *)
-       [NInner (Some (9, 12)) [NLeaf (Some (9, 10)) [(9, 9); (10, 10)]; NLeaf (Some (11, 12)) [(11, 11); (12, 12)]];
-        NInner (Some (13, 18)) [NLeaf (Some (13, 14)) [(13, 13); (14, 14)]; NLeaf (Some (15, 16)) [(15, 15); (16, 16)];
-                                NLeaf (Some (17, 18)) [(17, 17); (18, 18)]]]].
-Proof. vm_compute. reflexivity. Qed.
-
-(* ------------------------------------------------------------------ F2: end() from a failed find
-   Full statement (DESIGN nn_refines_map): for every history from a valid tree, every result of the
-   model equals the sorted map's.  FALSE: find(4) in {1,3,5,7} stored on two leaves returns an
-   iterator equal to end() whose ++ warns and stays at end(), while "incrementing end() brings you
-   to the first item". *)
+(* F2 (fixed in /repo by 0aa534ea): find(4) in {1,3,5,7} stored on two leaves returns an iterator equal
+   to end() that still carries the descent path; ++ on it used to warn and stay at end().  Now it is the
+   first item, -- the last, and insertAfter lands on the inserted item, without warnings. *)
 Definition two_leaves : ZT :=
   seal_root Z (NInner None [NLeaf None [(1, 10); (3, 30)]; NLeaf None [(5, 50); (7, 70)]]).
 
-Lemma nn_refines_map_refuted_lemma :
-  exists (t : Z) (s0 : ZT) (ops : list (nnop Z)),
-    3 <= t /\ zwf s0 = true /\
-    map (fun x => fst (fst x)) (nn_run Z nn_zcmp t s0 ops) = [RIter None; RIter None] /\
-    map (fun x => fst (fst x)) (sm_run Z nn_zcmp (nn_abs Z s0) ops) = [RIter None; RIter (Some (1, 10))] /\
-    map (fun x => snd (fst x)) (nn_run Z nn_zcmp t s0 ops) = [0; 1] (* one warning at the ++ *).
-Proof.
-  exists 3, two_leaves, [OpFind 4; OpNext]. split; [lia|]. vm_compute. auto.
-Qed.
+Lemma nn_end_from_failed_find_lemma :
+  map fst (nn_run Z nn_zcmp 3 two_leaves [OpFind 4; OpNext; OpFind 4; OpPrev; OpFind 4; OpInsAfter 0 5]) =
+  [(RIter None, 0); (RIter (Some (1, 10)), 0); (RIter None, 0); (RIter (Some (7, 70)), 0);
+   (RIter None, 0); (RIter (Some (0, 5)), 0)].
+Proof. vm_compute. reflexivity. Qed.
 
 (* ------------------------------------------------------------------ bounded histories *)
 Definition res_eqb (a b : nnres Z) : bool :=
@@ -72,12 +50,6 @@ Definition res_eqb (a b : nnres Z) : bool :=
   end.
 Definition kv_eqb (a b : Z * Z) : bool := (fst a =? fst b) && (snd a =? snd b).
 
-(* the input class of F2: the current iterator is invalid but still carries a path *)
-Definition stale_end (s : nnst Z) : bool :=
-  (st_item Z s <? 0) && negb (match st_path Z s with [] => true | _ => false end).
-Definition uses_iter (op : nnop Z) : bool :=
-  match op with OpNext | OpPrev | OpInsAfter _ _ => true | _ => false end.
-
 (* one call agrees: same result as the sorted map, same content, stored tree valid (wf_code 0:
    no /Limits on the root, keys ascending, /Limits exact, no empty non-root node, node sizes within
    the split bound), no warning *)
@@ -86,12 +58,11 @@ Definition step_ok (t : Z) (r1 : nnres Z) (s' : nnst Z) (w0 : Z) (r2 : nnres Z) 
   && (wf_code Z nn_zcmp t (st_root Z s') =? 0) && (st_warn Z s' =? w0).
 
 (* a history agrees up to the first call outside the specified domain (insertAfter at a position
-   where the key does not belong; a call on a stale end() iterator = finding F2) *)
+   where the key does not belong) *)
 Fixpoint agree (t : Z) (ops : list (nnop Z)) (s : nnst Z) (m : smst Z) : bool :=
   match ops with
   | [] => true
   | op :: ops' =>
-      if stale_end s && uses_iter op then true else
       let '(r1, s') := nn_step Z nn_zcmp t op s in
       let '(r2, m') := sm_step Z nn_zcmp op m in
       if sm_unspec Z m' then true
@@ -103,8 +74,7 @@ Fixpoint sweep (alphabet : list (nnop Z)) (depth : nat) (t : Z) (s : nnst Z) (m 
   | O => true
   | S d =>
       forallb (fun op =>
-        if stale_end s && uses_iter op then true else
-        let '(r1, s') := nn_step Z nn_zcmp t op s in
+          let '(r1, s') := nn_step Z nn_zcmp t op s in
         let '(r2, m') := sm_step Z nn_zcmp op m in
         if sm_unspec Z m' then true
         else step_ok t r1 s' (st_warn Z s) r2 m' && sweep alphabet d t s' m') alphabet
@@ -118,7 +88,7 @@ Proof.
   - destruct ops as [|op ops]; [reflexivity|].
     inversion Hin as [|? ? Hop Hrest]; subst.
     simpl in Hs. rewrite forallb_forall in Hs. specialize (Hs op Hop).
-    simpl. destruct (stale_end s && uses_iter op); [reflexivity|].
+    simpl.
     destruct (nn_step Z nn_zcmp t op s) as [r1 s'].
     destruct (sm_step Z nn_zcmp op m) as [r2 m'].
     destruct (sm_unspec Z m'); [reflexivity|].
@@ -137,7 +107,10 @@ Definition I (ks : list ZT) : ZT := NInner None ks.
 (* the starting trees of the harness's exhaustive part *)
 Definition starts (t : Z) : list ZT :=
   if t =? 3 then [mk (L []); mk (L [2; 4]); mk (L [1; 3; 5]); mk (I [L [1; 2; 3]; L [4; 5]]);
-                  mk (I [I [L [1]; L [2; 3]]; I [L [5]]])]
+                  mk (I [I [L [1]; L [2; 3]]; I [L [5]]]);
+                  (* four levels, full last leaf: inserting 3 splits it below two non-root ancestors
+                     (the situation of the former defect F1) *)
+                  mk (I [I [I [L [-3; -2]]]; I [I [L [0]; L [2; 4; 5]]]])]
   else if t =? 4 then [mk (L []); mk (L [1; 2; 3; 4]); mk (I [L [1; 2; 3; 4]; L [5]])]
   else [mk (L []); mk (L [1; 2; 3; 4; 5]); mk (I [L [2]; L [3]; L [4]; L [5; 6]])].
 
@@ -147,6 +120,8 @@ Definition sweep_from (d : nat) (t : Z) (s0 : ZT) : bool :=
 
 Lemma starts_valid : forallb (fun t => forallb zwf (starts t)) [3; 4; 5] = true.
 Proof. vm_compute. reflexivity. Qed.
+Lemma starts_ok : forallb (fun t => forallb (fun s0 => wf_code Z nn_zcmp t s0 =? 0) (starts t)) [3; 4; 5] = true.
+Proof. vm_compute. reflexivity. Qed.
 
 Lemma sweep3_all : forallb (fun t => forallb (sweep_from 3 t) (starts t)) [3; 4; 5] = true.
 Proof. vm_compute. reflexivity. Qed.
@@ -154,17 +129,20 @@ Proof. vm_compute. reflexivity. Qed.
 Lemma sweep4_empty : forallb (fun t => sweep_from 4 t (mk (L []))) [3; 4; 5] = true.
 Proof. vm_compute. reflexivity. Qed.
 
-(* Bounded version of nn_refines_map + nn_wf_preserved + nn_size_bound + iter_after_insert +
-   iter_after_remove (DESIGN C18).  What is missing for the full statements: an inductive invariant
-   for histories of any length from any valid tree.  The full statements themselves are false on
-   the unchanged tree (nn_wf_preserved_refuted, nn_refines_map_refuted); the true statement would be
-   this one with `agree` for every t >= 3, every valid s0 and every ops, with wf weakened on the
-   upper /Limits of last-kid ancestors (F1).
-   For every split threshold 3, 4, 5, every starting tree of `starts`, and EVERY history of at most
-   three helper calls over the 31-call alphabet on keys 1..5: each result (including where the
-   iterator stands after insert / insertAfter / remove) equals the sorted map's, the content
-   equals the sorted map, and the stored tree is valid with node sizes within the split bound. *)
-Lemma nn_history_partial_lemma : forall t s0 ops,
+(* Bounded version of nn_refines_map, which also carries nn_wf_preserved, nn_size_bound, iter_after_insert
+   and iter_after_remove (DESIGN C18).  Full statement:
+     forall t ops s0, 3 <= t -> wf_tree s0 = true -> agree t ops (nn_init s0) (init_sm s0) = true.
+   Since the repairs 091ae163 and 0aa534ea no counterexample is known (the check explores millions of
+   histories), but the inductive invariant for histories of any length from any valid tree is not proved:
+   what is proved in general is the search (the binsearch lemmas), that resetLimits touches only /Limits and that
+   split preserves the content; missing are the /Limits-exactness invariant across insert/remove and the
+   iterator-position lemmas.
+   Here: for every split threshold 3, 4, 5, every starting tree of `starts` (up to four levels), and EVERY
+   history of at most three helper calls over the 31-call alphabet on keys 1..5: each result (including where
+   the iterator stands after insert / insertAfter / remove, and ++/-- on any end() iterator) equals the sorted
+   map's, the content equals the sorted map, the stored tree is valid with node sizes within the split
+   bound, and no warning is issued. *)
+Lemma nn_refines_map_partial_lemma : forall t s0 ops,
   In t [3; 4; 5] -> In s0 (starts t) -> (length ops <= 3)%nat ->
   Forall (fun op => In op alphabet5) ops ->
   agree t ops (nn_init Z s0) (init_sm s0) = true.
@@ -177,11 +155,61 @@ Qed.
 
 (* the same from the empty tree for every history of at most four calls (four inserts overflow a
    leaf of threshold 3: the first root split is inside the domain) *)
-Lemma nn_history_from_empty_partial_lemma : forall t ops,
+Lemma nn_refines_map_from_empty_partial_lemma : forall t ops,
   In t [3; 4; 5] -> (length ops <= 4)%nat -> Forall (fun op => In op alphabet5) ops ->
   agree t ops (nn_init Z (mk (L []))) (init_sm (mk (L []))) = true.
 Proof.
   intros t ops Ht Hlen Hops.
   pose proof sweep4_empty as H. rewrite forallb_forall in H. specialize (H t Ht).
   unfold sweep_from in H. exact (sweep_sound alphabet5 4 t _ _ H ops Hlen Hops).
+Qed.
+
+(* ---- nn_wf_preserved in the same bounded form, stated on the final tree *)
+Fixpoint sm_final (ops : list (nnop Z)) (m : smst Z) : smst Z :=
+  match ops with
+  | [] => m
+  | op :: ops' => sm_final ops' (snd (sm_step Z nn_zcmp op m))
+  end.
+
+Lemma unspec_step : forall op m, sm_unspec Z m = true -> sm_unspec Z (snd (sm_step Z nn_zcmp op m)) = true.
+Proof.
+  intros op m H. destruct op; simpl; try exact H.
+  - destruct (sm_cur Z m); exact H.
+  - destruct (sm_cur Z m); exact H.
+  - match goal with |- context [if ?b then _ else _] => destruct b end; [exact H|reflexivity].
+  - destruct (sm_cur Z m); exact H.
+Qed.
+Lemma unspec_final : forall ops m, sm_unspec Z m = true -> sm_unspec Z (sm_final ops m) = true.
+Proof. induction ops as [|op ops IH]; intros m H; simpl; [exact H|]. apply IH, unspec_step, H. Qed.
+
+Lemma agree_wf_final : forall t ops s m,
+  agree t ops s m = true -> sm_unspec Z (sm_final ops m) = false ->
+  wf_code Z nn_zcmp t (st_root Z s) = 0 ->
+  wf_code Z nn_zcmp t (st_root Z (nn_final Z nn_zcmp t ops s)) = 0.
+Proof.
+  induction ops as [|op ops IH]; intros s m Ha Hu Hw; simpl in *; [exact Hw|].
+  destruct (nn_step Z nn_zcmp t op s) as [r1 s'] eqn:E1.
+  destruct (sm_step Z nn_zcmp op m) as [r2 m'] eqn:E2. simpl in *.
+  destruct (sm_unspec Z m') eqn:Eu.
+  - rewrite (unspec_final ops m' Eu) in Hu. discriminate.
+  - apply andb_true_iff in Ha. destruct Ha as [Hok Hrest].
+    apply (IH s' m' Hrest Hu).
+    unfold step_ok in Hok. repeat (apply andb_true_iff in Hok; destruct Hok as [Hok ?]).
+    apply Z.eqb_eq. assumption.
+Qed.
+
+(* Full statement (DESIGN nn_wf_preserved): forall t ops s0, 3 <= t -> wf_tree s0 = true ->
+   wf_tree (root (final t ops s0)) = true -- for histories that use insertAfter only where the key belongs.
+   Bounded form: *)
+Lemma nn_wf_preserved_partial_lemma : forall t s0 ops,
+  In t [3; 4; 5] -> In s0 (starts t) -> (length ops <= 3)%nat ->
+  Forall (fun op => In op alphabet5) ops ->
+  sm_unspec Z (sm_final ops (init_sm s0)) = false ->
+  wf_code Z nn_zcmp t (st_root Z (nn_final Z nn_zcmp t ops (nn_init Z s0))) = 0.
+Proof.
+  intros t s0 ops Ht Hs Hlen Hops Hu.
+  apply (agree_wf_final t ops (nn_init Z s0) (init_sm s0)); [|exact Hu|].
+  - apply nn_refines_map_partial_lemma; assumption.
+  - pose proof starts_ok as H. rewrite forallb_forall in H. specialize (H t Ht).
+    rewrite forallb_forall in H. specialize (H s0 Hs). apply Z.eqb_eq. exact H.
 Qed.
